@@ -33,7 +33,7 @@ var props = map[string]Prop{
 			{Name: "exhaustive", Test: "TestC09Exhaustive", Shards: [2]int{4, 16}, Timeout: [2]time.Duration{5 * min, 20 * min}},
 			{Name: "random", Test: "TestC09Random", Shards: [2]int{2, 16}, Checks: [2]int{15000, 150000}, SeedOffset: 1, Timeout: [2]time.Duration{5 * min, 20 * min}},
 		},
-		Rule: "exhaustive: every string of length <= 4 (quick) / <= 5 (thorough) over a 27-symbol representative alphabet and over a complementary 23-symbol alphabet (E, X, f, remaining operators and brackets, TAB, CR, runes of 2-4 bytes, a truncated rune), each visited once; random: rapid-generated strings up to 64 bytes built from lexeme fragments, arbitrary bytes and runes. Oracle: partition laws, differential against an independent reference tokenizer (kinds, spans, values, numbers as exact rationals), re-scan idempotence, numeric accessors. Non-trivial = the string contains a multi-character lexeme or drives the scanner through a look-ahead state (after 0, 0x, '.', exponent, backslash, '/', '=', '!', '<', '>', inside quotes) with at least one following character; distinct = distinct strings (exhaustive part distinct by construction, random part by hash).",
+		Rule: "exhaustive: every string of length <= 4 (quick) / <= 5 (thorough) over a 27-symbol representative alphabet and over a complementary 25-symbol alphabet (E, X, f, remaining operators and brackets, TAB, CR, space, runes of 2-4 bytes, a truncated rune, a stray 0xA0 byte), each visited once; random: rapid-generated strings up to 64 bytes built from lexeme fragments, arbitrary bytes and runes. Oracle: partition laws, differential against an independent reference tokenizer (kinds, spans, values, numbers as exact rationals), re-scan idempotence, numeric accessors. Non-trivial = the string contains a multi-character lexeme or drives the scanner through a look-ahead state (after 0, 0x, '.', exponent, backslash, '/', '=', '!', '<', '>', inside quotes) with at least one following character; distinct = distinct strings (exhaustive part distinct by construction, random part by hash).",
 		Assumptions: []string{
 			"the reference tokenizer (harness/reftok) is a faithful transcription of the C09 statement and the TokenKind documentation",
 			"unicode.IsSpace is the definition of white space",
@@ -45,7 +45,7 @@ var props = map[string]Prop{
 			{Name: "exhaustive", Test: "TestC15Exhaustive", Shards: [2]int{4, 16}, Timeout: [2]time.Duration{5 * min, 30 * min}},
 			{Name: "random", Test: "TestC15Random", Shards: [2]int{2, 16}, Checks: [2]int{8000, 60000}, SeedOffset: 1, Timeout: [2]time.Duration{5 * min, 20 * min}},
 		},
-		Rule: "exhaustive: every string of length <= 4 (quick) / <= 5 (thorough) over the 27-symbol alphabet and over the complementary 23-symbol alphabet (the first contains ';', all three quotes, '/', '!', newline); random: rapid-generated concatenations of statement fragments, semicolons, unterminated tokens and look-ahead lexemes. Oracle: join(pieces, ';') == source; #pieces == #semicolon tokens + 1; each piece is the text between consecutive semicolon tokens; Scan(piece) has no semicolon token and equals the context tokens shifted by the piece offset; Parse(source) succeeds iff every non-empty piece parses, and then statement k equals Parse(piece k) up to the span shift. Non-trivial = at least one semicolon token and (a semicolon byte that is not a token, or a semicolon directly after a look-ahead character); distinct = distinct strings.",
+		Rule: "exhaustive: every string of length <= 4 (quick) / <= 5 (thorough) over the 27-symbol alphabet and over the complementary 25-symbol alphabet (the first contains ';', all three quotes, '/', '!', newline); random: rapid-generated concatenations of statement fragments, semicolons, unterminated tokens and look-ahead lexemes. Oracle: join(pieces, ';') == source; #pieces == #semicolon tokens + 1; each piece is the text between consecutive semicolon tokens; Scan(piece) has no semicolon token and equals the context tokens shifted by the piece offset; Parse(source) succeeds iff every non-empty piece parses, and then statement k equals Parse(piece k) up to the span shift. Non-trivial = at least one semicolon token and (a semicolon byte that is not a token, or a semicolon directly after a look-ahead character); distinct = distinct strings.",
 		Assumptions: []string{"reflective structural comparison over the exported AST fields defines 'the same statement'"},
 	},
 	"C07": {
@@ -66,9 +66,10 @@ var props = map[string]Prop{
 		Stages: []Stage{
 			{Name: "soups", Test: "TestC08Exhaustive", Shards: [2]int{6, 16}, Timeout: [2]time.Duration{5 * min, 40 * min}},
 			{Name: "mutants", Test: "TestC08Mutants", Shards: [2]int{4, 16}, Checks: [2]int{6000, 100000}, SeedOffset: 1, Timeout: [2]time.Duration{5 * min, 40 * min}},
+			{Name: "dictionary", Test: "TestC08Dictionary", Shards: [2]int{4, 16}, Timeout: [2]time.Duration{5 * min, 30 * min}},
 			{Name: "fuzz", Fuzz: "FuzzC08Accept", Shards: [2]int{0, 1}, FuzzTime: [2]time.Duration{0, 4 * min}},
 		},
-		Rule: "soups: every sequence of <= 6 tokens over an 8-symbol alphabet and <= 4 over a 15-symbol one (thorough: <= 6 over 15 symbols) spliced into eight expression/operator contexts, each visited once (an accepted soup counts as non-trivial); mutants: rapid-generated grammar programs (all operators, lets, nested joins, hostile names) printed in a random layout and corrupted by 1-3 token-level edits (delete, insert incl. error lexemes, duplicate, transpose, truncate, replace, append) or byte-level splices of hostile constants; thorough adds a coverage-guided native fuzz campaign seeded with the goldens. Oracle, whenever Parse returns nil error: Scan holds no error token, and the token sequence re-printed from the tree through exported fields equals Scan's (kind, value) sequence except for a comma directly before the ')' closing a call, a comma directly before summarize's `by`, and empty statements. Non-trivial = an accepted mutant (Parse succeeded on a corrupted program) or an input that uses an allowed absence; distinct = distinct sources.",
+		Rule: "soups: every sequence of <= 6 tokens over an 8-symbol alphabet and <= 4 over a 15-symbol one (thorough: <= 6 over 15 symbols) spliced into eight expression/operator contexts, every sequence of <= 3 (4) tokens over 21 operator-level symbols in 13 operator contexts and every sequence of <= 8 (9) tokens over 5 bracket symbols, each visited once (an accepted soup counts as non-trivial); dictionary: every short word that occurs as a string literal in the parser's or compiler's source (read from the tree under test at run time) followed by every sequence of <= 4 (5) option-like tokens in 13 contexts; mutants: rapid-generated grammar programs (all operators, lets, nested joins, hostile names) printed in a random layout and corrupted by 1-3 token-level edits (delete, insert incl. error lexemes, duplicate, transpose, truncate, replace, append) or byte-level splices of hostile constants; thorough adds a coverage-guided native fuzz campaign seeded with the goldens. Oracle, whenever Parse returns nil error: Scan holds no error token, and the token sequence re-printed from the tree through exported fields equals Scan's (kind, value) sequence except for a comma directly before the ')' closing a call, a comma directly before summarize's `by`, and empty statements. Non-trivial = an accepted mutant (Parse succeeded on a corrupted program) or an input that uses an allowed absence; distinct = distinct sources.",
 		Assumptions: []string{"the re-printer (harness/astx/reprint.go) prints optional parts iff their span is valid or their node is non-nil; keyword synonyms are accepted as sets"},
 	},
 	"C10": {
@@ -91,7 +92,7 @@ var props = map[string]Prop{
 			{Name: "soups", Test: "TestC12Soups", Shards: [2]int{2, 16}, SeedOffset: 1, Timeout: [2]time.Duration{10 * min, 60 * min}},
 			{Name: "fuzz", Fuzz: "FuzzC12Total", Shards: [2]int{0, 1}, FuzzTime: [2]time.Duration{0, 5 * min}},
 		},
-		Rule: "random: rapid-generated inputs <= 4 KiB in six classes (random bytes, token soups, grammar programs, corrupted programs, nesting templates of brackets/calls/signs/in-lists scaled to the size cap, error cascades) x optional parameter maps with arbitrary names and snippets; soups: every sequence of <= 3 (thorough 5) tokens over a 15-symbol alphabet in eight contexts; thorough adds native fuzzing over (source, parameter). Oracle: a worker subprocess runs Scan, SplitStatements, Parse, Walk over every statement of a successful parse, Compile without and with the parameter map; a recovered panic, a worker death, or 20 CPU-seconds burnt on one case (read from /proc/<pid>/stat; slowest legitimate 4 KiB input measured at 3.2 s) is a violation. Non-trivial = the input has a bracket or a join, or an error token, or compiles; distinct = distinct inputs.",
+		Rule: "random: rapid-generated inputs <= 4 KiB in nine classes (random bytes, token soups, grammar programs, corrupted programs, nesting templates of brackets/calls/signs/in-lists scaled to the size cap and closed completely, partly or not at all, error cascades, long valid pipelines of up to 150 operators, every built-in with 0-5 arguments in every expression position) x optional parameter maps with arbitrary names and snippets; soups: every sequence of <= 3 (thorough 5) tokens over a 15-symbol alphabet in eight contexts; thorough adds native fuzzing over (source, parameter). Oracle: a worker subprocess runs Scan, SplitStatements, Parse, Walk over every statement of a successful parse, Compile without and with the parameter map; a recovered panic, a worker death, or 20 CPU-seconds burnt on one case (read from /proc/<pid>/stat; slowest legitimate 4 KiB input measured at 3.2 s) is a violation. Non-trivial = the input has a bracket or a join, or an error token, or compiles; distinct = distinct inputs.",
 		Assumptions: []string{
 			"a call that burns 20 CPU-seconds on <= 4 KiB does not terminate 'within seconds'; a slower-but-finite path just under the budget passes",
 			"wall-clock overrun without CPU consumption is inconclusive (exit 2), never a violation",
@@ -195,7 +196,7 @@ var props = map[string]Prop{
 		Stages: []Stage{
 			{Name: "histories", Test: "TestC14Histories", Shards: [2]int{8, 16}, Checks: [2]int{40, 500}, Timeout: [2]time.Duration{10 * min, 120 * min}},
 		},
-		Rule: "rapid-generated call histories of 5-40 calls over a pool of sources (lets that shadow a parameter of the shared map followed by calls that use that parameter, every built-in, an unknown join kind for the sorted error text, generated programs and their corruptions) mixing pql.Compile, nil / zero-value / empty-map / shared-map / private-map options, parser.Parse and parser.Scan. Each history runs sequentially in the test process (model: memo from call to result; equal calls must give equal results, nil = zero = empty options, the history repeated gives the same results, the shared map is unchanged) and once in a fresh child process built with -race whose first action is to run all calls from 2-16 goroutines released by a barrier on one shared options value: every concurrent result must equal the isolated one, the shared map must be unchanged, and the race detector must stay silent (exit status / DATA RACE report). A fresh child per history makes each one a first-use trial of the lazily initialised built-in table. Non-trivial = >= 4 goroutines, or a let that shadows a shared parameter followed by a later call using it; distinct = distinct histories.",
+		Rule: "rapid-generated call histories of 5-40 calls over a pool of sources (lets that shadow a parameter of the shared map followed by calls that use that parameter, every built-in, an unknown join kind for the sorted error text, generated programs and their corruptions) mixing pql.Compile, nil / zero-value / empty-map / shared-map / private-map options and five maps that are easy to confuse with the shared one (same %v print-out, values exchanged, one entry fewer or more), parser.Parse and parser.Scan; the pool also holds pipelines of 15-260 operators (some with several operators that each fail for their own reason) and expressions nested 50-400 deep. Every successful compilation is compared with the compilation of the same program followed by white space (a text no earlier call has seen). Each history runs sequentially in the test process (model: memo from call to result; equal calls must give equal results, nil = zero = empty options, the history repeated gives the same results, the shared map is unchanged) and once in a fresh child process built with -race whose first action is to run all calls from 2-16 goroutines released by a barrier on one shared options value: every concurrent result must equal the isolated one, the shared map must be unchanged, and the race detector must stay silent (exit status / DATA RACE report). A fresh child per history makes each one a first-use trial of the lazily initialised built-in table. Non-trivial = >= 4 goroutines, or a let that shadows a shared parameter followed by a later call using it; distinct = distinct histories.",
 		Assumptions: []string{
 			"schedules are sampled by the Go scheduler under the race detector, not enumerated: a race that needs a particular preemption point can escape, but unsynchronised accesses are reported whatever the outcome",
 		},
@@ -205,7 +206,7 @@ var props = map[string]Prop{
 		Stages: []Stage{
 			{Name: "scripts", Test: "TestC16Scripts", Shards: [2]int{8, 16}, Checks: [2]int{150, 4000}, Timeout: [2]time.Duration{10 * min, 90 * min}},
 		},
-		Rule: "rapid-generated scripts of 0-8 statements (valid queries that use or do not use earlier lets, valid lets incl. chains and redefinitions, failing lets (unbound name, syntax, quoted identifier, arity), invalid queries (parse and compile errors), empty statements) x line layouts (statements on one line or across lines with newlines, tabs and comments between tokens, blank lines and comments with semicolons between statements, final statement with or without `;` and final newline, CRLF line ends, one class with a 66-70 KB line) x transport (stdin, one file, 2-3 files cut at arbitrary byte positions, `-` among files) x sink (stdout, -o file); each script is also run with the final `;` toggled. Oracle: the built cmd/pql binary is run as a subprocess; expected standard output is the fold of the statement list with pql.Compile (a let is accepted iff it compiles with the accepted lets before it; a query contributes the library's SQL for accepted-lets + query followed by a blank line); stdout (or the -o file) must be byte-equal; exit status is non-zero iff some statement failed, stderr non-empty iff some statement failed; for the long-line class: complete correct processing, or non-zero exit with stdout a prefix of the expected output. Non-trivial = a query that uses an earlier let, or a failing statement followed by a succeeding one; distinct = statement-kind sequence x transport x sink x line-end style.",
+		Rule: "rapid-generated scripts of 0-8 statements (valid queries that use or do not use earlier lets, valid lets incl. chains and redefinitions, failing lets (unbound name, syntax, quoted identifier, arity), invalid queries (parse and compile errors), empty statements) x line layouts (statements on one line or across lines with newlines, tabs and comments between tokens, blank lines and comments with semicolons between statements, final statement with or without `;` and final newline, CRLF line ends, one class with a 66-70 KB line, alone or inside a multi-line statement, one with 3-53 KB lines, comments between a statement and its semicolon, repeated let texts, strings and quoted names holding //, ; and trailing backslashes) x transport (stdin, one file, 2-3 files cut at arbitrary byte positions, `-` among files) x sink (stdout, -o file); each script is also run with the final `;` toggled. Oracle: the built cmd/pql binary is run as a subprocess; expected standard output is the fold of the statement list with pql.Compile (a let is accepted iff it compiles with the accepted lets before it; a query contributes the library's SQL for accepted-lets + query followed by a blank line); stdout (or the -o file) must be byte-equal; exit status is non-zero iff some statement failed, stderr non-empty iff some statement failed; for the long-line class: complete correct processing, or non-zero exit with stdout a prefix of the expected output. Non-trivial = a query that uses an earlier let, or a failing statement followed by a succeeding one; distinct = statement-kind sequence x transport x sink x line-end style.",
 		Assumptions: []string{
 			"exit status and stderr are not asserted for scripts with empty statements between semicolons or an unterminated final let (only their effect on stdout is checked); error message text is never compared",
 			"statement texts are generated so that the semicolons written between them are the only semicolon tokens (C15 covers the splitter itself)",
